@@ -245,14 +245,17 @@ def cpprange(facts: CppFacts, parts=("write", "mask", "keepmask"), ub_only=False
                     res.add(key + "|max", f"BcdView of {k} bits accepts values up to {got}; {n} full decimal digit(s) and a {r}-bit top "
                             f"digit hold up to {want}", m.file, m.line, "BcdView::CouldWriteValue")
 
+    if "write" in parts or "enum" in parts:
         # ---- EnumView --------------------------------------------------------------------------------------
         m, conj = split("EnumView")
         bounds = []
+        roundtrips = []
         for c in conj:
             if _is_value_ok(c):
                 continue
             if c[0] == "bin" and c[1] == "==" and _mentions(c, "value"):
-                continue  # round trip through the storage type (a)
+                roundtrips.append(c)
+                continue  # round trip through the storage type (a): evaluated below
             if c[0] == "bin" and c[1] == "||" and not _mentions(c[2], "value") and _bound_of(c[3], "value"):
                 bounds.append((c[2], _bound_of(c[3], "value")))
                 continue
@@ -279,6 +282,39 @@ def cpprange(facts: CppFacts, parts=("write", "mask", "keepmask"), ub_only=False
                     if got != (1 << k) - 1:
                         res.add(key + "|max", f"EnumView of {k} bits in a {w}-bit block accepts values up to {got}; the field holds up to {(1 << k) - 1}",
                                 m.file, m.line, "EnumView::CouldWriteValue")
+
+        # conjunct (a): "the value survives the conversion to the storage integer and back".  Evaluated with C++ semantics
+        # (promotions, usual arithmetic conversions) for every underlying type of an enum and every block type, on the
+        # extreme and the small values of the underlying type; the oracle is plain arithmetic: (U)(B)v == v.
+        if len(roundtrips) != 1:
+            raise AnalysisError(f"EnumView::CouldWriteValue: {len(roundtrips)} round-trip conjuncts (expected 1)")
+        for ubits in (8, 16, 32, 64):
+            for usigned in (True, False):
+                U = X.T(usigned, ubits)
+                lo = -(1 << (ubits - 1)) if usigned else 0
+                hi = (1 << (ubits - 1)) - 1 if usigned else (1 << ubits) - 1
+                for w in (8, 16, 32, 64):
+                    B = X.T(False, w)
+                    for v in sorted({lo, lo + 1, -1 if usigned else 0, 0, 1, hi - 1, hi, (1 << (w - 1)) if (1 << (w - 1)) <= hi else hi}):
+                        if not lo <= v <= hi:
+                            continue
+                        res.instances += 1
+                        bv = v % (1 << w)
+                        back = bv % (1 << ubits)
+                        if usigned and back >= (1 << (ubits - 1)):
+                            back -= 1 << ubits
+                        want = back == v
+                        env = X.Env({"Parameters::kBits": X.V(X.INT, w), "value": X.V(U, v)},
+                                    {"ValueType": U, "BitViewType::ValueType": B, "IntT": X.LONG}, functions)
+                        key = f"{m.file}|EnumView::CouldWriteValue|roundtrip|{'i' if usigned else 'u'}{ubits}|w={w}"
+                        r_ = _fold(roundtrips[0], env, f"EnumView round trip {('int' if usigned else 'uint')}{ubits}_t in uint{w}_t value {v}", res, key,
+                                   m.file, m.line, "EnumView::CouldWriteValue")
+                        if r_ is not None and bool(r_.v) != want:
+                            res.add(key + "|value", f"EnumView::CouldWriteValue: the 'fits the storage integer' test answers {bool(r_.v)} for the value {v} of an "
+                                    f"enum over {'int' if usigned else 'uint'}{ubits}_t stored through uint{w}_t; converting there and back "
+                                    f"{'preserves' if want else 'changes'} the value (mixed-sign comparison after integer promotion?)",
+                                    m.file, m.line, "EnumView::CouldWriteValue")
+                            break
 
     if "mask" in parts:
         # ---- MaskToNBits -----------------------------------------------------------------------------------
